@@ -101,8 +101,9 @@ func NewServerDnsListener(topDomain string, comm ServerCommunicator) *ServerDnsL
 				if u.lastConnection.Add(OldConnectionTimeout).Before(now) {
 					// Remove connection from our list
 					log.Infof("Removing stale old connection for user %d (%s)", u.UserId, u.remoteAddress)
-					srv.connections[u.UserId] = nil
-					srv.oldConnections[u.UserId] = u
+					// Forget the old entry only: the slot with the same id may belong to a live
+					// session of another client by now
+					srv.oldConnections[u.UserId] = nil
 				}
 			}
 
